@@ -112,24 +112,28 @@ Lemma wrap32_small x : x < 4294967296 -> wrap32 x = x.
 Proof. unfold wrap32, two32. intros. now apply N.mod_small. Qed.
 
 Section ProbeProofs.
-  Variables (st : lzst) (code : N) (tgt : list N) (tp max_len npl ht_pos : N).
+  Variables (st : lzst) (code : N) (tgt tsuf : list N) (tp max_len npl ht_pos : N).
+  Hypothesis Hts : tsuf = skipnN tp tgt.
+  Hypothesis Hrpl : refp_len st = lenN (refp st).
   Hypothesis Hrl : lenN (refp st) < 4294967296.
   Hypothesis Htl : lenN tgt < 4294967296.
   Hypothesis Htp : tp <= lenN tgt.
 
   Lemma probe_sound n : forall j bp bb bf mtu res,
-    probe st code tgt tp max_len npl ht_pos n j bp bb bf mtu = Ok res ->
+    probe st code tgt tsuf tp max_len npl ht_pos n j bp bb bf mtu = Ok res ->
     probe_inv st tgt tp npl (bp, bb, bf) -> probe_inv st tgt tp npl res.
   Proof.
     induction n; intros j bp bb bf mtu res H Hi; cbn [probe] in H. { now inversion H; subst. }
     destruct (nthN (ht st) _) as [slot|]; [|discriminate].
     destruct (slot =? empty_slot). { now inversion H; subst. }
+    rewrite Hrpl in H.
     destruct (lenN (refp st) <=? slot * hashing_step) eqn:Eh. { eapply IHn; eauto. }
     destruct (get_code st _) as [[rc|]| |]; try discriminate; [|eapply IHn; eauto].
     destruct (negb (rc =? code)). { eapply IHn; eauto. }
     set (hp := slot * hashing_step) in *.
-    destruct (matching_length_spec (skipnN tp tgt) (skipnN hp (refp st)) max_len) as (M1 & M2 & M3 & M4).
-    set (fl := matching_length (skipnN tp tgt) (skipnN hp (refp st)) max_len) in *.
+    destruct (matching_length_spec tsuf (skipnN hp (refp st)) max_len) as (M1 & M2 & M3 & M4).
+    set (fl := matching_length tsuf (skipnN hp (refp st)) max_len) in *.
+    rewrite Hts in M2, M4.
     destruct (key_len st <=? fl) eqn:Ek; [|eapply IHn; eauto].
     set (mb := N.min (N.min npl hp) tp) in *.
     destruct (back_go_spec tgt (refp st) tp hp mb ltac:(lia) ltac:(lia) (N.to_nat mb) 0 ltac:(lia) eq_refl)
@@ -145,13 +149,13 @@ Section ProbeProofs.
   Hypothesis Hmask : ht_mask st < lenN (ht st).
 
   Lemma probe_ok n : forall j bp bb bf mtu, exists res,
-    probe st code tgt tp max_len npl ht_pos n j bp bb bf mtu = Ok res.
+    probe st code tgt tsuf tp max_len npl ht_pos n j bp bb bf mtu = Ok res.
   Proof.
     induction n; intros; cbn [probe]; eauto.
     destruct (nthN_lt (ht st) (N.land (ht_pos + j) (ht_mask st))) as (slot & Es).
     { assert (L := land_le_r (ht_pos + j) (ht_mask st)). lia. }
     rewrite Es. destruct (slot =? empty_slot); eauto.
-    destruct (lenN (refp st) <=? slot * hashing_step) eqn:Eh; eauto.
+    rewrite Hrpl. destruct (lenN (refp st) <=? slot * hashing_step) eqn:Eh; eauto.
     destruct (get_code st _) as [[rc|]| |] eqn:Eg; eauto.
     - destruct (negb (rc =? code)); eauto. destruct (key_len st <=? _); eauto.
       destruct (mtu <? _); eauto.
@@ -165,11 +169,11 @@ Definition st_sizes (st : lzst) (tgt : list N) : Prop :=
   lenN (refp st) < 4294967296 /\ lenN tgt < 4294967296.
 
 Theorem find_best_match_lp_sound_proof : forall st code hash tgt tp max_len npl mp lb lf,
-  st_sizes st tgt -> tp <= lenN tgt -> 1 <= mml st ->
-  find_best_match_lp st code hash tgt tp max_len npl = Ok (Some (mp, lb, lf)) ->
+  st_sizes st tgt -> refp_len st = lenN (refp st) -> tp <= lenN tgt -> 1 <= mml st ->
+  find_best_match_lp st code hash tgt (skipnN tp tgt) tp max_len npl = Ok (Some (mp, lb, lf)) ->
   match_post st tgt tp npl mp lb lf /\ mml st <= lb + lf.
 Proof.
-  intros st code hash tgt tp max_len npl mp lb lf (S1 & S2) Htp Hm H.
+  intros st code hash tgt tp max_len npl mp lb lf (S1 & S2) Hrp Htp Hm H.
   unfold find_best_match_lp in H. destruct (ht st); [discriminate|].
   destruct (probe _ _ _ _ _ _ _ _ _ _ _ _ _) as [[[bp bb] bf]| |] eqn:Ep; try discriminate.
   unfold add_u32 in H. destruct (bb + bf <? two32); [|discriminate].
@@ -182,20 +186,21 @@ Qed.
 (* well-formed state: what prepare establishes and the encoder relies on *)
 Definition wf_st (st : lzst) (rf : list N) : Prop :=
   refp st = rf ++ repeat pad_byte (N.to_nat (key_len st)) /\ ref_len st = lenN rf /\
-  1 <= key_len st /\ key_len st + 3 = mml st /\ (ht st = [] \/ ht_mask st < lenN (ht st)).
+  1 <= key_len st /\ key_len st + 3 = mml st /\ (ht st = [] \/ ht_mask st < lenN (ht st)) /\
+  refp_len st = lenN (refp st).
 
 Lemma find_best_match_lp_total st rf code hash tgt tp max_len npl :
   wf_st st rf -> st_sizes st tgt -> tp <= lenN tgt ->
-  find_best_match_lp st code hash tgt tp max_len npl = Ok None \/
-  exists mp lb lf, find_best_match_lp st code hash tgt tp max_len npl = Ok (Some (mp, lb, lf)) /\
+  find_best_match_lp st code hash tgt (skipnN tp tgt) tp max_len npl = Ok None \/
+  exists mp lb lf, find_best_match_lp st code hash tgt (skipnN tp tgt) tp max_len npl = Ok (Some (mp, lb, lf)) /\
     match_post st tgt tp npl mp lb lf /\ mml st <= lb + lf.
 Proof.
-  intros (W1 & W2 & W3 & W4 & W5) (S1 & S2) Htp.
-  destruct (find_best_match_lp st code hash tgt tp max_len npl) as [[[[mp lb] lf]|]| |] eqn:E; auto.
+  intros (W1 & W2 & W3 & W4 & W5 & W6) (S1 & S2) Htp.
+  destruct (find_best_match_lp st code hash tgt (skipnN tp tgt) tp max_len npl) as [[[[mp lb] lf]|]| |] eqn:E; auto.
   - right. exists mp, lb, lf. split; auto. eapply find_best_match_lp_sound_proof; eauto. { split; auto. } lia.
   - exfalso. unfold find_best_match_lp in E. destruct (ht st) eqn:Eh; [discriminate|].
     destruct W5 as [W5|W5]; [discriminate|].
-    assert (PO : exists res, probe st code tgt tp max_len npl (N.land hash (ht_mask st))
+    assert (PO : exists res, probe st code tgt (skipnN tp tgt) tp max_len npl (N.land hash (ht_mask st))
                                  (N.to_nat max_no_tries) 0 0 0 0 (mml st) = Ok res).
     { apply probe_ok; eauto. rewrite Eh. exact W5. }
     destruct PO as (res & Er).
@@ -203,7 +208,7 @@ Proof.
     destruct (add_u32 bb bf); [|discriminate]. destruct (_ <=? _); discriminate.
   - exfalso. unfold find_best_match_lp in E. destruct (ht st) eqn:Eh; [discriminate|].
     destruct W5 as [W5|W5]; [discriminate|].
-    assert (PO : exists res, probe st code tgt tp max_len npl (N.land hash (ht_mask st))
+    assert (PO : exists res, probe st code tgt (skipnN tp tgt) tp max_len npl (N.land hash (ht_mask st))
                                  (N.to_nat max_no_tries) 0 0 0 0 (mml st) = Ok res).
     { apply probe_ok; eauto. rewrite Eh. exact W5. }
     destruct PO as (res & Er).
